@@ -9,6 +9,7 @@ import RbV.Thm.GenSrcHamming
 import RbV.Thm.GenSrcUkkonen
 import RbV.Thm.GenSrcMyersSimple
 import RbV.Thm.GenSrcMyersLong
+import RbV.Thm.GenSrcMyersLongStep
 import RbV.Lemmas.HitsClamp
 /-!
 # C09 — approximate matchers and distance functions equal the edit-distance definition
@@ -432,9 +433,9 @@ example : RbV.Thm.GenSrcMyersSimple.findAllSrc 16 8 [0, 0b101, 0b010, 0] 0b100 3
 
 /-! ### The block step of the block-based Myers matcher, translated from the source text (genukk)
 
-`RbV/Gen/SrcMyersLong.lean` = `advance_block` of `pattern_matching/myers/long.rs`.  (`States::step` — the carry chain over the
-`Vec<State>` and the lazy activation / deactivation of blocks — is not translated; it stays tied by the mirror model
-`Model/MyersLong.lean`, `myers_long_eq`, and the correspondence run.) -/
+`RbV/Gen/SrcMyersLong.lean` = `advance_block`, `States::add_state`, `States::step` of `pattern_matching/myers/long.rs`
+(`States::new`, `known_dist`, the constructor `new_ambig` and the glue `Myers::step` / `initial_state` are not translated: they
+stay tied by the mirror model `Model/MyersLong.lean`, `myers_long_eq`, and the correspondence run). -/
 
 /-- **`advance_block`, as written, is the model's block step — for every word width** `w ≥ 2`: when `p.peq[a]` holds the
 word `eq` and `p.bound = 1 << bnd`, the translated function maps the representation `(pv, mv, dist)` of a block `s` and the
@@ -460,5 +461,67 @@ example : RbV.Gen.SrcMyersLong.advanceBlock (w := 8) (pv := 255) (mv := 0) (dist
     (bound := 0b100) (a := 2) (hin := 255) = RbV.Rs.Res.ok (255, 0, 2, 255) := by decide
 example : RbV.Gen.SrcMyersLong.advanceBlock (w := 8) (pv := 255) (mv := 0) (dist := 3) (peq := [0, 0b101, 0b010, 0])
     (bound := 0b100) (a := 3) (hin := 1) = RbV.Rs.Res.ok (254, 0, 3, 0) := by decide
+
+/-- **`States::add_state(offset)`, as written**: appends `State::init(prev_dist + delta + offset)` to the active blocks, where
+`prev_dist` is the distance of the last active block (0 for none) and `delta` the number of pattern rows of the new block
+(`last_m` for a partial last block, else the word size); `offset ∈ {−1, 0, 1}` as an `i8` pattern; no wrap-around when the
+sum is a non-negative `usize`. -/
+theorem myers_long_add_state_source_eq_model (w : Nat) (L : List (RbV.Model.MyersSimple.St w)) (mb lm : Nat) (o : Int)
+    (ho : -1 ≤ o ∧ o ≤ 1)
+    (hnn : 0 ≤ (RbV.Thm.GenSrcMyersLongStep.lastDist L : Int) + (if L.length = mb ∧ lm > 0 then lm else w : Nat) + o)
+    (hlt : RbV.Thm.GenSrcMyersLongStep.lastDist L + (if L.length = mb ∧ lm > 0 then lm else w) + 1 < 2 ^ 64) :
+    RbV.Gen.SrcMyersLong.addState (w := w) (states := RbV.Thm.GenSrcMyersLongStep.repS L) (max_block := mb) (last_m := lm)
+        (offset := RbV.Rs.ofInt 8 o) =
+      RbV.Rs.Res.ok (RbV.Thm.GenSrcMyersLongStep.repS (L ++ [⟨BitVec.allOnes w, 0#w,
+        ((RbV.Thm.GenSrcMyersLongStep.lastDist L : Int) + (if L.length = mb ∧ lm > 0 then lm else w : Nat) + o).toNat⟩])) :=
+  RbV.Thm.GenSrcMyersLongStep.addState_eq_model w L mb lm o ho hnn hlt
+
+/-- **`States::step`, as written, is the model's `stepStates` — for every word width**: the carry chain
+`for (state, block_peq) in self.states.iter_mut().zip(peq) { carry = advance_block(..) }` (= `advanceAll`), the lazy
+activation test `(last_dist as isize - carry as isize) as usize <= max_dist && last_block < self.max_block &&
+(peq[last_block + 1].peq[a] & 1 == 1 || carry < 0)` with `add_state(-carry)` + `advance_block` on the new block, and
+otherwise the deactivation loop `while last_block > 0 && states[last_block].dist >= max_dist.saturating_add(w)` +
+`truncate` (= `cutRev`).  `repS` / `peqL` are the active blocks and the per-block tables as the code holds them.
+The hypotheses are side conditions, not restrictions of the algorithm: no `dist` update wraps (`ChainOk`, `hfresh`), the
+distances stay below `2^63` so that the `isize` round trip of the activation test is exact (`hd`), the value
+`last_dist − carry` of the previous column is not negative (`hnn`), and the blocks have the lengths `States::new` assumes
+(`hblk`, `hlm`).  They are **not** yet derived from the `Band` invariant behind `myers_long_eq` (that every state a
+search reaches satisfies them is argued in docs/notes/C09.md, and sampled by the correspondence run); hence there is no
+end-to-end `…_source_exact` statement for the block-based matcher. -/
+theorem myers_long_step_source_eq_model (w : Nat) (eqv : Nat → Nat → Bool) (blks : List (List Nat)) (k a lm : Nat)
+    (sts : List (RbV.Model.MyersSimple.St w)) (hw : 1 < w) (hwlt : w < 2 ^ 62) (hlm : lm ≤ w) (ha : a < 256) (hne : sts ≠ [])
+    (hlen : sts.length ≤ blks.length) (hbl : blks.length < 2 ^ 63)
+    (hblk : ∀ i blk, blks[i]? = some blk → blk.length = (if i = blks.length - 1 ∧ lm > 0 then lm else w))
+    (hchain : RbV.Thm.GenSrcMyersLongStep.ChainOk eqv a blks sts 0)
+    (hd : ∀ s ∈ (RbV.Model.MyersLong.advanceAll eqv a blks sts 0).1, s.dist + 1 < 2 ^ 63)
+    (hnn : 0 ≤ (RbV.Thm.GenSrcMyersLongStep.lastDist (RbV.Model.MyersLong.advanceAll eqv a blks sts 0).1 : Int) -
+      (RbV.Model.MyersLong.advanceAll eqv a blks sts 0).2)
+    (hfresh : ∀ blk, blks[sts.length]? = some blk →
+      RbV.Thm.GenSrcMyersLongStep.BlockOk eqv a blk
+        (RbV.Thm.GenSrcMyersLongStep.freshBlock w (RbV.Model.MyersLong.advanceAll eqv a blks sts 0).1 blk.length
+          (RbV.Model.MyersLong.advanceAll eqv a blks sts 0).2)
+        (RbV.Model.MyersLong.advanceAll eqv a blks sts 0).2) :
+    RbV.Gen.SrcMyersLong.step (w := w) (states := RbV.Thm.GenSrcMyersLongStep.repS sts) (max_block := blks.length - 1)
+        (last_m := lm) (a := a) (peq := RbV.Thm.GenSrcMyersLongStep.peqL w eqv blks) (max_dist := k) =
+      RbV.Rs.Res.ok (RbV.Thm.GenSrcMyersLongStep.repS (RbV.Model.MyersLong.stepStates eqv blks k a sts)) :=
+  RbV.Thm.GenSrcMyersLongStep.step_eq_model w eqv blks k a lm sts hw hwlt hlm ha hne hlen hbl hblk hchain hd hnn hfresh
+
+-- non-vacuity: pattern 1 2 3 4 5 6 in blocks of 4 bits, k = 1.  After the text 1 2 3 one block is active
+-- (`pv = 9, mv = 4, dist = 1`); the symbol 4 switches the second block on (all hypotheses checked on this input):
+example : RbV.Gen.SrcMyersLong.step (w := 4) (states := [(9, 4, 1)]) (max_block := 1) (last_m := 2) (a := 4)
+    (peq := RbV.Thm.GenSrcMyersLongStep.peqL 4 eqSym [[1, 2, 3, 4], [5, 6]]) (max_dist := 1) =
+    RbV.Rs.Res.ok [(3, 12, 0), (15, 0, 2)] := by
+  have h := myers_long_step_source_eq_model 4 eqSym [[1, 2, 3, 4], [5, 6]] 1 4 2 [⟨9#4, 4#4, 1⟩] (by decide) (by decide)
+    (by decide) (by decide) (by decide) (by decide) (by decide)
+    (by intro i blk h; rcases i with _ | _ | i <;> simp at h <;> subst h <;> rfl)
+    (by simp only [RbV.Thm.GenSrcMyersLongStep.ChainOk, RbV.Thm.GenSrcMyersLongStep.BlockOk]; decide)
+    (by decide) (by decide)
+    (by intro blk h; simp at h; subst h; simp only [RbV.Thm.GenSrcMyersLongStep.BlockOk]; decide)
+  rw [show RbV.Thm.GenSrcMyersLongStep.repS [(⟨9#4, 4#4, 1⟩ : RbV.Model.MyersSimple.St 4)] = [(9, 4, 1)] from by decide] at h
+  exact h.trans (by decide)
+-- … and the deactivation: two active blocks, the last row reaches k + w = 5, the second block is switched off
+example : RbV.Gen.SrcMyersLong.step (w := 4) (states := [(15, 0, 4), (0, 0, 4)]) (max_block := 1) (last_m := 2) (a := 9)
+    (peq := RbV.Thm.GenSrcMyersLongStep.peqL 4 eqSym [[1, 2, 3, 4], [5, 6]]) (max_dist := 1) =
+    RbV.Rs.Res.ok [(15, 0, 4)] := by decide
 
 end RbV.Thm.C09
